@@ -1095,9 +1095,13 @@ class ExcelCompiler:
             if isinstance(seed, str):
                 seed = AddressRange(seed)
             elif isinstance(seed, collections.abc.Iterable):
-                for s in seed:
-                    self._gen_graph(s, recursed=True)
-                self._process_gen_graph()
+                try:
+                    for s in seed:
+                        self._gen_graph(s, recursed=True)
+                finally:
+                    # also when one of the seeds can not be built, the cells
+                    # made for the others are in the model and need wiring
+                    self._process_gen_graph()
                 return
             else:
                 raise ValueError(f'Unknown seed: {seed}')
@@ -1129,7 +1133,14 @@ class ExcelCompiler:
 
             self.log.debug(f"Handling {dependant.address}")
 
-            for precedent_address in dependant.needed_addresses:
+            try:
+                needed_addresses = dependant.needed_addresses
+            except Exception as exc:
+                # a formula which can not be compiled, same as below
+                failure = failure or exc
+                continue
+
+            for precedent_address in needed_addresses:
                 if precedent_address.address not in self.cell_map:
                     try:
                         self._gen_graph(precedent_address, recursed=True)
